@@ -360,8 +360,10 @@ class PathEnum:
             if k == "return":
                 if frames:
                     # return into the suspended caller
-                    cbody, cenv, cconsts, cdsrc, dest, tgt, _callee, _cbb = frames[-1]
+                    cbody, cenv, cconsts, cdsrc, dest, tgt, _callee, _cbb = frames[-1][:8]
                     ret = env.get(0, ("undef", 0))
+                    if len(frames[-1]) > 8:
+                        ret = frames[-1][8]  # combinator expansion: the call's own result term
                     cenv = dict(cenv)
                     cconsts = dict(cconsts)
                     cdsrc = dict(cdsrc)
@@ -455,6 +457,44 @@ class PathEnum:
                             fr = frames + ((body, env, consts, discr_src, t["dest"], t["target"], cb, bb),)
                             stack.append((0, cenv, {}, decisions + ([(key, "Some")] if prev is None else []), visits, p2, {}, fr))
                         continue
+                if site.ck == "std::result::Result::map_err" and len(args) == 2 and t.get("target") is not None and depth < self.max_depth and not t["dest"]["p"]:
+                    clo = [st for st in subterms(args[1]) if st[0] == "agg" and st[1].startswith("closure:")]
+                    cb = self.prog.by_path.get(clo[0][1][8:]) if len(clo) == 1 else None
+                    if cb is not None and cb.arg_count == 2 and not any(f[6].path == cb.path for f in frames):
+                        key = norm_key(("discr", args[0]))
+                        prev = None
+                        for dk, dv in decisions:
+                            if dk == key:
+                                prev = dv.lstrip("*")
+                        res_t = ("maperr", args[0], args[1])
+                        dl = t["dest"]["l"]
+                        if prev in (None, "Ok"):
+                            p1 = Path()
+                            p1.blocks = list(path.blocks)
+                            p1.events = list(path.events)
+                            e1 = Event("call", bb, "term", t["loc"]["line"])
+                            e1.site, e1.ck, e1.args, e1.body, e1.depth, e1.chain = site, site.ck, args, body, depth, ev.chain
+                            e1.bb = BB(bb, body)
+                            e1.result = res_t
+                            p1.events.append(e1)
+                            env1 = dict(env)
+                            env1[dl] = res_t
+                            c1 = dict(consts)
+                            c1.pop(dl, None)
+                            d1 = dict(discr_src)
+                            d1.pop(dl, None)
+                            stack.append((t["target"], env1, c1, decisions + ([(key, "Ok")] if prev is None else []), visits, p1, d1, frames))
+                        if prev in (None, "Err"):
+                            p2 = Path()
+                            p2.blocks = list(path.blocks)
+                            p2.events = list(path.events)
+                            ev.inlined = True
+                            ev.result = res_t
+                            p2.events.append(ev)
+                            cenv = {1: clo[0], 2: ("vfield", args[0], "Err", 0)}
+                            fr = frames + ((body, env, consts, discr_src, t["dest"], t["target"], cb, bb, res_t),)
+                            stack.append((0, cenv, {}, decisions + ([(key, "Err")] if prev is None else []), visits, p2, {}, fr))
+                        continue
                 res = self.call_result(site, args, v)
                 if site.ck == "std::boxed::box_assume_init_into_vec_unsafe" and args:
                     # vec![a, b]: Box::new_uninit -> array written through the box -> into_vec
@@ -534,6 +574,11 @@ class PathEnum:
                         stack.append((tgt, env, consts, decisions, visits, path, discr_src, frames))
                     continue
                 key = norm_key(self.operand(env, d))
+                relabel = None
+                if key[0] == "discr" and key[1][0] == "resok":
+                    # `res.ok()`: Some <=> the Result was Ok, None <=> it was Err
+                    key = norm_key(("discr", key[1][1]))
+                    relabel = {"Some": "Ok", "None": "Err"}
                 taken = discr_src.get("__taken__", frozenset())
                 if key[0] == "discr" and key[1][0] == "take":
                     # Option::take returns the old content: same discriminant as the place had
@@ -544,6 +589,8 @@ class PathEnum:
                 vt = self.variant_table(src) if src is not None else {}
                 outcomes = []
                 explicit = set()
+                if relabel:
+                    vt = {v_: relabel.get(n_, n_) for v_, n_ in vt.items()}
                 for tv, tb in t["targets"]:
                     lab = vt.get(str(tv), str(tv))
                     outcomes.append((lab, tb))
